@@ -6,11 +6,9 @@ import anon_streams as AS
 
 MODULE = "Props.C04"
 THEOREMS = ["C04_compact_spec", "C04_too_few_entities", "C04_flattened_sum_bounds", "C04_id_less_rows", "flattenCore_heaviest_invariant",
-            "C04_heaviest_invariance", "sortDesc_sorted", "sortDesc_perm"]
-PARTIAL = ["T04.c is proved for the computation after sorting, with the shape 'same ids in the first k <= outlier.lower positions, "
-           "contributions still >= every other entity's' as hypothesis; that raising contributions of the heaviest entities yields this "
-           "shape is argued from sortDesc_sorted/sortDesc_perm (uniqueness of the sorted order) but not itself a Lean theorem",
-           "exact arithmetic: in doubles 'real_sum - flattening' can differ in the last bit, which matters only at a rounding tie; "
+            "C04_heaviest_invariance", "sortDesc_sorted", "sortDesc_perm", "sortDesc_unique", "raise_heaviest_shape",
+            "C04_heaviest_invariance_raise"]
+PARTIAL = ["exact arithmetic: in doubles 'real_sum - flattening' can differ in the last bit, which matters only at a rounding tie; "
            "the metamorphic oracle evaluates the invariance on the real code"]
 ASSUMPTIONS = []
 TRUSTED = ["stream S-cnt generators (1-3 id columns, 0-60 entities, ties, heavy hitters, id-less rows, intervals 1<=lower<=upper)"]
